@@ -24,8 +24,12 @@
      moves the calls to the closer's work list;
    * recv, finding c.closed at the lookup, returns ErrConnectionClosed: serve then calls closeWithError,
      which is a no-op [RFail -> CloseBegin WRecv -> RGone];
-   * the err.(net.Error) branch after readFrame exists in the code (RecvBodyErr true) but readFrame wraps
-     every io error with %v, so a failed body read always takes the other branch (RecvBodyErr false);
+   * readFrame's errors are of two kinds: the connection failed before the body was consumed (a
+     frameReadError wrapping the io error, or a net.Error): recv returns it and serve closes the
+     connection [RecvBodyErr true]; or the body was consumed and is unusable (too big and discarded, no
+     compressor, decompression failed): the error goes to the caller and the receiver goes on
+     [RecvBodyErr false].  (Before the fix of finding body-timeout-misroute every io error took the second
+     path with part of the body still unread: C01/Refuted.v keeps that behaviour as a regression fact.);
    * whether exec releases the stream after an error response depends on c.Closed() read after the
      rendezvous [PGot _ opn, Finish c rel];
    * the receiver's release on behalf of a departed caller is its own action after the select [RecvRelease];
@@ -134,7 +138,7 @@ Inductive label :=
 (* receiver *)
 | RecvHeader
 | RecvBodyOk
-| RecvBodyErr (net : bool) (resid : list Z)   (* resid: stream ids the rest of the torn body parses as *)
+| RecvBodyErr (fatal : bool)             (* readFrame failed; fatal: the body was not consumed (net.Error / frameReadError) *)
 | RecvSawTimeout (c : Z)
 | RecvRelease (c : Z)
 | RecvCtxDone
@@ -373,11 +377,11 @@ Definition step (s : state) (l : label) : option state :=
       | RHave c t => Some (with_rcv s (RDeliver c (RTok t)))
       | _ => None
       end
-  | RecvBodyErr net resid =>                             (* 737-744 *)
+  | RecvBodyErr fatal =>                                 (* 737-750 *)
       match rcv s with
       | RHave c t =>
-          if net then Some (with_rcv s RFail)
-          else Some (with_s2c (with_rcv s (RDeliver c (RBodyErr t))) (map (fun id => (id, t)) resid ++ s2c s))
+          if fatal then Some (with_rcv s RFail)          (* the connection failed mid-body: recv returns the error *)
+          else Some (with_rcv s (RDeliver c (RBodyErr t)))   (* found after the whole body was consumed: to the caller *)
       | _ => None
       end
   | RecvSawTimeout c =>                                  (* 750 *)
